@@ -357,6 +357,84 @@ theorem foldNum_div_zero {init acc b : Num} {pre post : List Value}
   show (Num.div acc b >>= _) = _
   rw [Num.div_exactZero ha hb]; rfl
 
+/-! ### `divArgs`: the check for an exact zero divisor among exact operands -/
+
+theorem notReal_of_exact {x : Num} (h : x.Exact) : x.notReal = true := by
+  cases x <;> first | rfl | exact absurd h id
+
+theorem exact_of_exactZero {b : Num} (h : b.ExactZero) : b.Exact := by
+  cases b <;> first | trivial | exact absurd h id
+
+theorem isExactZero_of_exactZero {b : Num} (h : b.ExactZero) : b.isExactZero = true := by
+  cases b with
+  | int i => cases (show i = 0 from h); rfl
+  | rat n d => cases (show n = 0 from h); rfl
+  | real r => exact absurd h id
+
+/-- the exact prefix of exact numbers followed by anything -/
+theorem exactPrefix_map_append : ∀ {pre : List Num}, (∀ x ∈ pre, x.Exact) → ∀ (rest : List Value),
+    exactPrefix (pre.map Value.num ++ rest) = pre ++ exactPrefix rest
+  | [], _, _ => rfl
+  | x :: pre, h, rest => by
+    show exactPrefix (.num x :: (pre.map Value.num ++ rest)) = _
+    rw [exactPrefix, if_pos (notReal_of_exact (h x (List.mem_cons_self ..))),
+      exactPrefix_map_append (fun y hy => h y (List.mem_cons_of_mem _ hy))]
+    rfl
+
+theorem divArgs_singleton (v : Value) :
+    divArgs [v] = if (exactPrefix [v]).any Num.isExactZero then .error .divZero else subDiv Num.div (.int 1) [v] := rfl
+
+theorem divArgs_cons_cons (x y : Value) (rest : List Value) :
+    divArgs (x :: y :: rest) =
+      if ((exactPrefix (x :: y :: rest)).drop 1).any Num.isExactZero then .error .divZero
+      else subDiv Num.div (.int 1) (x :: y :: rest) := rfl
+
+/-- a first argument that is not a number: the check does not fire -/
+theorem divArgs_first_nonnum {x : Value} {rest : List Value} (hx : ¬ IsNum x) :
+    divArgs (x :: rest) = subDiv Num.div (.int 1) (x :: rest) := by
+  have : ∀ l, exactPrefix (x :: l) = [] := by
+    intro l; cases x <;> first | rfl | exact absurd trivial hx
+  cases rest with
+  | nil => rw [divArgs_singleton, this]; rfl
+  | cons y more => rw [divArgs_cons_cons, this]; rfl
+
+/-- a second argument that is not a number: the check does not fire -/
+theorem divArgs_second_nonnum {a : Num} {x : Value} {rest : List Value} (hx : ¬ IsNum x) :
+    divArgs (.num a :: x :: rest) = subDiv Num.div (.int 1) (.num a :: x :: rest) := by
+  have : exactPrefix (x :: rest) = [] := by
+    cases x <;> first | rfl | exact absurd trivial hx
+  rw [divArgs_cons_cons, exactPrefix, this]
+  split <;> rfl
+
+/-- THE CHECK FIRES: the operands before position `j = pre.length` are exact numbers, the operand at `j` is an exact
+zero, and it is a divisor (`j ≥ 1`, or the single operand of the one-argument form). Nothing is assumed about the
+running quotient, and nothing about what follows (also non-numbers). -/
+theorem divArgs_exact_zero {pre : List Num} {b : Num} {post : List Value} (hpre : ∀ x ∈ pre, x.Exact)
+    (hb : b.ExactZero) (hj : pre ≠ [] ∨ post = []) :
+    divArgs (pre.map Value.num ++ .num b :: post) = .error .divZero := by
+  have hp : exactPrefix (pre.map Value.num ++ .num b :: post) = pre ++ b :: exactPrefix post := by
+    rw [exactPrefix_map_append hpre, exactPrefix, if_pos (notReal_of_exact (exact_of_exactZero hb))]
+  have hz := isExactZero_of_exactZero hb
+  cases pre with
+  | nil =>
+    rcases hj with hj | rfl
+    · exact absurd rfl hj
+    · show divArgs [.num b] = _
+      rw [divArgs_singleton, if_pos]
+      rw [show exactPrefix [Value.num b] = [] ++ b :: exactPrefix [] from hp]
+      simp [hz]
+  | cons x pre =>
+    obtain ⟨y, more, hy⟩ : ∃ y more, pre.map Value.num ++ .num b :: post = y :: more := by
+      cases pre with
+      | nil => exact ⟨_, _, rfl⟩
+      | cons p pre => exact ⟨_, _, rfl⟩
+    have he : (x :: pre).map Value.num ++ .num b :: post = .num x :: y :: more := by
+      rw [← hy]; rfl
+    rw [he] at hp ⊢
+    rw [divArgs_cons_cons, if_pos]
+    rw [hp]
+    simp [hz]
+
 end Prim
 
 /-! ## the applications performed by one run of the trampoline -/
